@@ -168,6 +168,8 @@ class IoModel:
                 raise Unsupported("int.from_bytes with symbolic signedness")
             # the length must be known up to a small concrete bound on this path
             return sv_int(self.from_bytes_le(eng, st, b, z3.is_true(sg)))
+        if name in ("uuid4", "uuid.uuid4"):
+            return SV("uuid", fresh("uuid4", Int))       # some UUID (nothing is assumed about its value)
         if name in ("UUID", "uuid.UUID"):
             if "bytes" in kwargs and not args:
                 b = as_blob(eng, kwargs["bytes"], st, "UUID(bytes=...)")
